@@ -51,10 +51,15 @@ HugeCases ==
   {Mk(<<<<100, 100>>, <<8, 8>>>>, <<sx * 536870912, 0, (100 - sx * 536870912) \div 2, 0, sy * 536870912, (100 - sy * 536870912) \div 2>>, o,
       [ttol |-> <<1, 20>>, stol |-> <<1, 1000>>]) @@ [den |-> 1, huge |-> TRUE] :
      sx \in {1, -1}, sy \in {1, -1}, o \in {[pad |-> <<>>, align |-> <<>>], [pad |-> <<2>>, align |-> <<>>], [pad |-> <<1>>, align |-> <<4>>], [pad |-> <<3>>, align |-> <<>>]}}
+\* the same whole-pixel maps between grids tagged with two DIFFERENT coordinate reference systems (two custom transverse-Mercator systems without an
+\* EPSG code, fresh CRS objects): whatever the numbers say, paste-ability may only be reported for grids sharing a CRS
+XCrsCases ==
+  {Mk(sh, <<sx, 0, k * 960, 0, sy, ty>>, [pad |-> <<>>, align |-> <<>>], [ttol |-> <<1, 20>>, stol |-> <<1, 1000>>]) @@ [xcrs |-> TRUE] :
+     sx \in {960, 1920}, sy \in {960, -960, 1920}, k \in {-2, 0, 3}, ty \in {0, 960}, sh \in Shapes}
 AxisCases(s) == {[ns |-> ns, nd |-> nd, s |-> s, t |-> k * 960 + r] : ns \in 1..5, nd \in 1..5, k \in -8..13, r \in Res \cup {320, -320, 640}}
 VARIABLE c
-Init == c \in {[k |-> "st", v |-> s] : s \in Scales} \cup {[k |-> "near", v |-> s] : s \in NearScales} \cup {[k |-> "rot", v |-> 0], [k |-> "shear", v |-> 0], [k |-> "big", v |-> 0], [k |-> "far", v |-> 0]} \cup {[k |-> "axis", v |-> s] : s \in Scales}
-Next == "k" \in DOMAIN c /\ c' \in (IF c.k = "st" THEN STCases(c.v) ELSE IF c.k = "near" THEN NearCases(c.v) ELSE IF c.k = "shear" THEN ShearCases ELSE IF c.k = "big" THEN BigCases \cup HugeCases ELSE IF c.k = "far" THEN FarCases ELSE IF c.k = "axis" THEN AxisCases(c.v) ELSE RotCases) /\ Emit(c')
+Init == c \in {[k |-> "st", v |-> s] : s \in Scales} \cup {[k |-> "near", v |-> s] : s \in NearScales} \cup {[k |-> "rot", v |-> 0], [k |-> "shear", v |-> 0], [k |-> "big", v |-> 0], [k |-> "far", v |-> 0], [k |-> "xcrs", v |-> 0]} \cup {[k |-> "axis", v |-> s] : s \in Scales}
+Next == "k" \in DOMAIN c /\ c' \in (IF c.k = "st" THEN STCases(c.v) ELSE IF c.k = "near" THEN NearCases(c.v) ELSE IF c.k = "shear" THEN ShearCases ELSE IF c.k = "big" THEN BigCases \cup HugeCases ELSE IF c.k = "far" THEN FarCases ELSE IF c.k = "xcrs" THEN XCrsCases ELSE IF c.k = "axis" THEN AxisCases(c.v) ELSE RotCases) /\ Emit(c')
 Spec == Init /\ [][Next]_c
 \* design level: the transcribed plan meets the contract
 ModelPlan(x) ==
@@ -63,7 +68,7 @@ ModelPlan(x) ==
   IF paste THEN PastePlan(x) @@ [paste_ok |-> TRUE, shrink |-> Shrink(x.A)]
   ELSE [roi_src |-> SampledSrcRoi(x, PadOf(x)), paste_ok |-> FALSE, shrink |-> 0]
 AxisModelOK == "ns" \in DOMAIN c => LET r == AxisOverlap(c.ns, c.nd, c.s, c.t) IN AxisOK(c, <<r.s0, r.s1, r.d0, r.d1>>) = "ok"
-ModelOK == ("hs" \in DOMAIN c /\ "den" \notin DOMAIN c) =>
+ModelOK == ("hs" \in DOMAIN c /\ "den" \notin DOMAIN c /\ "xcrs" \notin DOMAIN c) =>
   LET m == ModelPlan(c) IN
   IF m.paste_ok THEN /\ \A p \in Needed(c) : InRoi(m.roi_dst, p[1], p[2]) /\ InRoi(m.roi_src, SrcPix(c, p)[1], SrcPix(c, p)[2])
                      /\ PasteSoundOK(c, [paste_ok |-> TRUE, shrink |-> m.shrink, roi_src |-> m.roi_src, roi_dst |-> m.roi_dst]) = "ok"
